@@ -1950,7 +1950,9 @@ theorem ofDisk_fst (s : State) (d : Option Disk) : (ofDisk s d).1 =
       | none => s) := by
   cases d <;> rfl
 
-theorem synced_step_aux {s : State} (h : Synced s) (op : Op) (hq : Quiet op) : Synced (step s op).1 := by
+/-- every quiet operation other than the in-place save (for which see `Lemmas/ExtSave.lean`) -/
+theorem synced_step_nosave {s : State} (h : Synced s) (op : Op) (hq : Quiet op) (hs : ∀ a b, op ≠ .save a b) :
+    Synced (step s op).1 := by
   cases op with
   | touch p => exact synced_loadPart h p
   | pset p v => exact synced_psetPart h p v
@@ -2042,7 +2044,7 @@ theorem synced_step_aux {s : State} (h : Synced s) (op : Op) (hq : Quiet op) : S
   | ldel _ => exact absurd hq (by simp [Quiet])
   | lorder _ => exact absurd hq (by simp [Quiet])
   | ldefault _ => exact absurd hq (by simp [Quiet])
-  | save _ _ => exact absurd hq (by simp [Quiet])
+  | save a b => exact absurd rfl (hs a b)
   | saveas tD tS =>
     rw [step_saveas]
     cases hr : saveAs s tD tS with
@@ -2058,12 +2060,14 @@ theorem synced_step_aux {s : State} (h : Synced s) (op : Op) (hq : Quiet op) : S
   | reloadglyphs _ _ => exact absurd hq (by simp [Quiet])
   | reloadfiles _ _ => exact absurd hq (by simp [Quiet])
 
-theorem synced_run_aux {s : State} (h : Synced s) (ops : List Op) (hq : ∀ op ∈ ops, Quiet op) : Synced (run s ops) := by
+theorem synced_run_nosave {s : State} (h : Synced s) (ops : List Op) (hq : ∀ op ∈ ops, Quiet op)
+    (hs : ∀ op ∈ ops, ∀ a b, op ≠ .save a b) : Synced (run s ops) := by
   induction ops generalizing s with
   | nil => exact h
   | cons op rest ih =>
     simp only [run, List.foldl_cons]
-    exact ih (synced_step_aux h op (hq op (by simp))) fun o ho => hq o (by simp [ho])
+    exact ih (synced_step_nosave h op (hq op (by simp)) (hs op (by simp))) (fun o ho => hq o (by simp [ho]))
+      (fun o ho => hs o (by simp [ho]))
 
 
 /-! ## Exactness: what each entry of the report means -/
